@@ -173,6 +173,10 @@ func c13Matchers() []mspec {
 		{K: "and", Sub: []mspec{pv1e, ha}},
 		{K: "or", Sub: []mspec{hv1, ha}}, // a rejecting first member must leave nothing behind for the second
 		{K: "or", Sub: []mspec{hv1, pv1e}},
+		{K: "or"},  // no alternative: accepts nothing
+		{K: "and"}, // no condition: accepts everything
+		{K: "or", Sub: []mspec{ha}},
+		{K: "and", Sub: []mspec{pv1}},
 		// members writing the SAME parameter name: a rejected inner And must give the outer value back
 		{K: "and", Sub: []mspec{{K: "hv", Args: []string{"v", "", "1"}}, {K: "or", Sub: []mspec{{K: "and", Sub: []mspec{pv1, ha}}, hb}}}},
 	}
@@ -244,11 +248,11 @@ func c13Job(raw json.RawMessage) (any, error) {
 	for _, o := range it.Ops {
 		switch o.K {
 		case "new":
-			r := g.New(o.Name, ms[o.M].build())
+			r := g.New(o.Name, ms[o.M].build(), mux.WithTrace(hv.TraceH()))
 			addRoutes(r, o.Name)
 			model = append(model, &grouter{o.Name, ms[o.M], true, guse})
 		case "add":
-			r := NewRouter(RouterCfg{Name: o.Name})
+			r := NewRouter(RouterCfg{Name: o.Name, Trace: true})
 			addRoutes(r, o.Name)
 			g.Add(ms[o.M].build(), r)
 			model = append(model, &grouter{o.Name, ms[o.M], true, guse})
@@ -326,7 +330,7 @@ func c13Job(raw json.RawMessage) (any, error) {
 	for _, host := range []string{"a.com", "b.com", "s.a.com", "A.COM:80"} {
 		for _, path := range []string{"/x", "/v1/x", "/v2/x", "/v1", "/v1/v1/x", "/zz", "zz" /* no route of any router: a 404 inside the winning router */} {
 			for _, acc := range []string{"", "application/json;version=1", "application/json;version=2", ";;"} {
-				for _, method := range []string{"GET", "POST", "OPTIONS", "GET+raw"} {
+				for _, method := range []string{"GET", "POST", "OPTIONS", "GET+raw", "TRACE"} {
 					q := hv.Req{Method: method, Path: path, Host: host}
 					if method == "GET+raw" { // the target arrived percent-encoded: URL.RawPath carries the encoded form
 						method = "GET"
@@ -364,7 +368,9 @@ func c13Job(raw json.RawMessage) (any, error) {
 							ps[k] = v
 						}
 						hid, st, route := "404", 404, ""
-						if !e.NotFound {
+						if method == "TRACE" { // every router has a TRACE handler: any path, no route, the matcher's parameters only
+							hid, st, route = "TRACE", 200, "<node with empty pattern>"
+						} else if !e.NotFound {
 							oc := e.Outcomes[0]
 							route = oc.Pattern
 							for k, v := range oc.Params {
